@@ -5,8 +5,67 @@ cache-free function); the cached / direct character map equality is C13's; (2) c
 model on lazy and preloaded faces; (3) the property on the API: the same call sequence on faces made with every option bit
 combination, from the file and from table callbacks, must report the same glyph count, features, languages, character
 support, labels and produce identical segments."""
+import os, struct, shutil
 import vlib
-from props import shapegen as S, c16, apiseq, c08
+from props import shapegen as S, c16, apiseq, c08, cmapgen
+
+
+def with_cmap(data, cmap):
+    """the font with its cmap table replaced (new table appended, directory entry redirected)"""
+    d = bytearray(data)
+    nt = struct.unpack('>H', d[4:6])[0]
+    while len(d) % 4:
+        d.append(0)
+    off = len(d)
+    d += cmap
+    for i in range(nt):
+        e = 12 + 16 * i
+        if bytes(d[e:e + 4]) == b'cmap':
+            d[e + 8:e + 16] = struct.pack('>II', off, len(cmap))
+    return bytes(d)
+
+
+def fontblob(path):
+    if not path.startswith('/'):
+        return None
+    try:
+        import base64, zlib
+        return base64.b64encode(zlib.compress(open(path, 'rb').read(), 9)).decode()
+    except OSError:
+        return None
+
+
+def synth_cmap_fonts(rng, n, tmp):
+    """fonts whose character map has format 4 and format 12 subtables with group boundaries at the interesting code points"""
+    out = []
+    for k in range(n):
+        src = rng.choice(('Padauk.ttf', 'charis_r_gr.ttf', 'general.ttf'))
+        data = open(os.path.join(vlib.REPO, 'tests/fonts', src), 'rb').read()
+        ng = 200
+        segs = [dict(start=0x20, end=0x7E, delta=(rng.randrange(1, 60) - 0x20) & 0xFFFF)]
+        if rng.random() < 0.5:
+            st = rng.choice((0xFFF0, 0xFFFE, 0xFF00)); segs.append(dict(start=st, end=rng.choice((0xFFFE, 0xFFFF)), delta=(5 - st) & 0xFFFF))
+        if segs[-1]['end'] != 0xFFFF:
+            segs.append(dict(start=0xFFFF, end=0xFFFF, delta=1))
+        groups, cps = [], [0x20, 0x41, 0x7E, 0x7F, 0xFFFE, 0xFFFF]
+        c = rng.choice((0x10000, 0x10000, 0x10001, 0x1F600))
+        bmp_groups = [(0x20, 0x7E, (0x20 + segs[0]['delta']) & 0xFFFF)] if rng.random() < 0.7 else []
+        for _ in range(rng.randrange(1, 5)):
+            ln = rng.choice((1, 2, 3, 40))
+            e = min(c + ln - 1, 0x10FFFF)
+            groups.append((c, e, rng.randrange(1, ng - ln - 1)))
+            cps += [c - 1, c, e, e + 1]
+            c = e + rng.choice((1, 2, 300, 70000))
+            if c > 0x10FFFF:
+                break
+        if rng.random() < 0.3 and (not groups or groups[-1][1] < 0x10FFFF):
+            groups.append((0x10FFFF, 0x10FFFF, 7)); cps.append(0x10FFFF)
+        cmap = cmapgen.cmap_table([(3, 1, cmapgen.fmt4(segs)), (3, 10, cmapgen.fmt12(sorted(bmp_groups + groups)))])
+        p = os.path.join(tmp, 'cm%d.ttf' % k)
+        open(p, 'wb').write(with_cmap(data, cmap))
+        cps = sorted(set(c for c in cps if 0 < c <= 0x10FFFF and not 0xD800 <= c <= 0xDFFF))
+        out.append((p, src, cps))
+    return out
 
 
 def run(chk):
@@ -30,6 +89,15 @@ def run(chk):
         for (o, s) in (variants if thorough or k % 4 == 0 else rng.sample(variants, 6)):
             g.append(len(cases)); cases.append('v%d.%d%s api %s %d %s - %s' % (k, o, s, font, o, s, ' '.join(ops)))
         groups.append((font, g))
+    # fonts with synthetic character maps: support and shaping of the boundary code points under every option set
+    tmp = os.path.join(vlib.BUILD, 'fuzzfonts', 'c10-%s-%d' % (chk.tier, chk.seed))
+    shutil.rmtree(tmp, ignore_errors=True); os.makedirs(tmp)
+    for p, src, cps in synth_cmap_fonts(rng, 120 if thorough else 16, tmp):
+        ops = ['sup:%s' % ','.join('%x' % c for c in cps), 'seg:0:32:0:-:-:%s' % ''.join('%08x' % c for c in cps[:12]), 'seg:1:32:1:-:-:%s' % ''.join('%08x' % c for c in cps[-12:]), 'info']
+        g = []
+        for (o, sm) in variants:
+            g.append(len(cases)); cases.append('y%d.%d%s api %s %d %s - %s' % (len(groups), o, sm, p, o, sm, ' '.join(ops)))
+        groups.append(('synthetic cmap on ' + src, g))
     _, il, _ = vlib.run_pair(None, hexe, cases, timeout=3000)
     classes, dist = set(), {}
     for font, g in groups:
@@ -53,9 +121,10 @@ def run(chk):
                 d = next((j for j, (a, b) in enumerate(zip(base[1], r[1])) if a != b), None)
                 what = 'face verdict %s vs %s' % (base[0], r[0]) if base[0] != r[0] else 'result %d of the sequence: %s vs %s' % (d, (base[1][d] if d is not None else '?')[:200], (r[1][d] if d is not None else '?')[:200])
                 chk.violation('c10:%s:%s vs %s' % (font, ' '.join(cases[base_ix].split()[3:5]), ' '.join(cases[ix].split()[3:5])),
-                              'the same calls give different results under different face options / sources: %s' % what, dict(cases=[cases[base_ix], cases[ix]], got=[il[base_ix][:1500], il[ix][:1500]]))
+                              'the same calls give different results under different face options / sources: %s' % what, dict(cases=[cases[base_ix], cases[ix]], got=[il[base_ix][:1500], il[ix][:1500]], font_gz_b64=fontblob(cases[ix].split()[2])))
                 break
         classes.add((font, base[0], len(res), len(base[1])))
+    shutil.rmtree(tmp, ignore_errors=True)
     chk.cov.update(evaluations=ng + len(cases), distinct_nontrivial=len(classes), disagreements_checked=ndis, distribution=dist,
                    rule='glyph cache lookups on lazy / preloaded faces against the model; API: %d call sequences (face report, segments in 3 encodings and dir 0..7 with fonts and feature values, labels, value labels, '
                         'justification, face report again) each run on faces with option bits 0..7 x {callbacks, file} (all 16 in thorough, 6 sampled + every 4th full in quick), every result compared; '
@@ -67,6 +136,13 @@ def replay(chk, obj):
     cs = obj.get('replay', {}).get('cases') or [c for c in [(obj.get('broken') or [{}])[-1].get('case')] if c]
     if not cs:
         print('no case'); return 1
+    blob = obj.get('replay', {}).get('font_gz_b64')
+    if blob:
+        import base64, zlib
+        tmp = os.path.join(vlib.BUILD, 'fuzzfonts', 'replay'); os.makedirs(tmp, exist_ok=True)
+        fp = os.path.join(tmp, 'replay.ttf')
+        open(fp, 'wb').write(zlib.decompress(base64.b64decode(blob)))
+        cs = [' '.join(c.split()[:2] + [fp] + c.split()[3:]) for c in cs]
     hexe = apiseq.build('asan')
     _, il, _ = vlib.run_pair(None, hexe, cs, shards=1)
     for c, l in zip(cs, il):
